@@ -268,7 +268,7 @@ ZDD_ASSUME = [
     "Not under any verifier: SharedArena lock wrappers, Zdd::to_sets / the Iterator trait impls (only the inherent `next` bodies), debug.rs",
 ]
 
-def zdd_witness(scratch):
+def zdd_witness(scratch, cls="all"):
     """native differential search over <= 3 variables on the real varpulis-zdd API; attaches inputs, decides nothing"""
     import shutil
     wdir = os.path.join(scratch, "witness-zdd")
@@ -280,17 +280,17 @@ def zdd_witness(scratch):
     rc, out = vpv.sh(["cargo", "build", "--offline", "--release"], cwd=wdir, env={"CARGO_TARGET_DIR": tgt}, timeout=900)
     if rc != 0:
         return dict(found=False, note="witness finder did not build: " + out[-400:])
-    rc, out = vpv.sh([os.path.join(tgt, "release/vpv-zdd-witness"), "3"], timeout=600)
+    rc, out = vpv.sh([os.path.join(tgt, "release/vpv-zdd-witness"), "3", cls], timeout=600)
     m = re.search(r"^WITNESS (.*)$", out, re.M)
     if m:
-        return dict(found=True, input=m.group(1), cmd="cd /verif/witness/zdd && cargo run --release -- 3")
+        return dict(found=True, input=m.group(1), cmd="cd /verif/witness/zdd && cargo run --release -- 3 " + cls)
     if rc != 0 and "NO-WITNESS" not in out:
-        return dict(found=True, input="real code panicked: " + out[-600:], cmd="cd /verif/witness/zdd && cargo run --release -- 3")
+        return dict(found=True, input="real code panicked: " + out[-600:], cmd="cd /verif/witness/zdd && cargo run --release -- 3 " + cls)
     return dict(found=False, note=out.strip()[-300:])
 
 
 def _zdd_unit(prop, explanation, level="proof"):
-    return dict(witness=zdd_witness, verus_args=["--rlimit", "40"], prop=prop, template="contracts/verus/zdd.rs.tmpl", gen_name="zdd", ledger="obligations/zdd.json",
+    return dict(witness=(lambda scratch, _p=prop: zdd_witness(scratch, _p)), verus_args=["--rlimit", "40"], prop=prop, template="contracts/verus/zdd.rs.tmpl", gen_name="zdd", ledger="obligations/zdd.json",
                 explanation=explanation, level=level, assumptions=ZDD_ASSUME)
 
 VERUS_UNITS["C06"] = _zdd_unit("C06",
